@@ -1,9 +1,10 @@
-/- driver ops: tlser, tldeser, tlcrc, tlblk (TL model over the generated schema table)
+/- driver ops: tlser, tldeser, tlnorm, tlcrc, tlblk (TL model over the generated schema table)
 
 value syntax (no blanks): i<int> | T | F | b<hex> | s<hex of utf8> | h<hex> | l(v,v,..) | o<tag>(k=v,k=v,..)
 with <tag> = `-` or the interned constructor-name number and k = interned field-name numbers. -/
 import TonVerif.Drv.Common
 import TonVerif.Model.Tl
+import TonVerif.Model.TlNorm
 import TonVerif.Generated.TlTable
 
 namespace TonVerif.Drv
@@ -92,6 +93,15 @@ def handle? (op : String) (args : List String) : Option String :=
         | some (v, n) => s!"ok {showVal v} {n}"
         | none => "err"
       | none => "bad-op")
+  | "tlnorm", [ci, v] => some (match ci.toNat?, valArg v with
+      | some i, some val =>
+        match table.ctors[i]? with
+        | some c =>
+          match normalize table fuel c val with
+          | some w => s!"ok {showVal w}"
+          | none => "err"
+        | none => "bad-op"
+      | _, _ => "bad-op")
   | "tlcrc", [d] => some (match hexArg d with
       | some bs => s!"ok {crc32 bs}"
       | none => "bad-op")
